@@ -732,10 +732,18 @@ func c14StreamRound(nIn, nOut int) string {
 		var all []byte
 		for i := 0; i < nIn; i++ {
 			f := []byte{4, 2, 0, 12, 0, 0, byte(i >> 8), byte(i), byte(i), byte(i + 1), byte(i + 2), byte(i + 3)}
+			if i%7 == 3 {
+				// a frame larger than a pool buffer's initial capacity: the buffer grows
+				f = append(f, make([]byte, 2988)...)
+				f[2], f[3] = 3000>>8, 3000&0xff
+				for k := 12; k < len(f); k++ {
+					f[k] = byte(i + k)
+				}
+			}
 			all = append(all, f...)
 		}
 		for len(all) > 0 {
-			n := 7
+			n := 7 + 1000*(len(all)%3)
 			if n > len(all) {
 				n = len(all)
 			}
